@@ -1963,9 +1963,9 @@ def fix_case(ctx, case, lines, with_model, cap, profile="fix"):
 
 
 FIX_KIND_CLASSES = {
-    "parse": ["emptyBlock", "stmtRangeOverrun", "sharedLine", "missingFInFstring"],
+    "parse": ["emptyBlock", "stmtRangeOverrun", "sharedLine"],
     "locality": ["stmtRangeOverrun", "sharedLine", "elifHeader", "emptyBlock", "decoratedStmt"],
-    "behaviour": ["stmtRangeOverrun", "sharedLine", "elifHeader", "decoratedStmt", "fstringZeroPrecision", "fstringConversion"],
+    "behaviour": ["stmtRangeOverrun", "sharedLine", "elifHeader", "decoratedStmt", "fstringConversion"],
     "still": ["decoratedStmt"],
     "exact": ["stmtRangeOverrun", "sharedLine", "elifHeader", "decoratedStmt"],
     "kind": [],           # an expression for a statement (or the reverse): never a known class
@@ -2025,7 +2025,7 @@ def flush_fixes(ctx, pending, with_model):
                 allowed = FIX_KIND_CLASSES[kind]
                 if kind == "behaviour" and any(k2 in ("exact", "locality", "parse") for k2, _w in p[4]):
                     # fstringConversion explains a changed result only when the tree is exactly the intended one
-                    allowed = [c for c in allowed if c not in ("fstringConversion", "fstringZeroPrecision")]
+                    allowed = [c for c in allowed if c != "fstringConversion"]
                 cls = next((c for c in allowed if c in cls_list), None)
                 ctx.candidate(dict(case, round=k), what, cls=cls, conforms=conform.get(key, True), stream="fixes")
         elif op == "X" and mo is not None:
